@@ -4,6 +4,7 @@ Applies the patch to a fresh scratch worktree of /repo (never to /repo itself), 
 (2) the demonstration fails on the changed tree and passes on /repo, then runs ./check for the given properties with
 VERIF_REPO pointing at the scratch tree and reports which of them raise a VIOLATION."""
 import glob, os, subprocess, sys, tempfile
+V = os.path.dirname(os.path.dirname(os.path.abspath(__file__)))   # the checkout this script lives in (works in worktrees)
 args = [a for a in sys.argv[1:] if not a.startswith('--')]
 tier = 'thorough' if '--tier' in sys.argv and 'thorough' in sys.argv else 'quick'
 d, props = os.path.abspath(args[0]), args[1:]
@@ -15,16 +16,16 @@ try:
     r = run(['git', '-C', wt, 'apply', os.path.join(d, 'patch.diff')])
     if r.returncode:
         print('PATCH DOES NOT APPLY', r.stderr); sys.exit(2)
-    b = run(['/venv/bin/python', '/verif/tools/baseline.py', wt])
+    b = run(['/venv/bin/python', os.path.join(V, 'tools', 'baseline.py'), wt])
     print('suite  :', b.stdout.strip().splitlines()[0] if b.stdout else b.stderr[-200:])
     for demo in sorted(glob.glob(os.path.join(d, 'demo*.py'))):
         r1 = run(['/venv/bin/python', demo], env=dict(os.environ, PYTHONPATH=wt), cwd='/tmp')
         r2 = run(['/venv/bin/python', demo], env=dict(os.environ, PYTHONPATH='/repo'), cwd='/tmp')
         print('demo   : %s changed-tree exit=%d  unchanged exit=%d' % (os.path.basename(demo), r1.returncode, r2.returncode))
     for p in props:
-        r = run(['/verif/check', p, '--tier', tier], env=dict(os.environ, VERIF_REPO=wt), cwd='/verif')
+        r = run([os.path.join(V, 'check'), p, '--tier', tier], env=dict(os.environ, VERIF_REPO=wt), cwd=V)
         lines = [l for l in r.stdout.splitlines() if l.startswith(('VIOLATION', 'KNOWN-FINDING', 'INFRA', p))]
         print('check  : %s exit=%d :: %s' % (p, r.returncode, ' | '.join(l[:230] for l in lines)))
 finally:
     subprocess.run(['git', '-C', '/repo', 'worktree', 'remove', '--force', wt])
-    subprocess.run(['/venv/bin/python', '/verif/tools/regen_tables.py'], capture_output=True)
+    subprocess.run(['/venv/bin/python', os.path.join(V, 'tools', 'regen_tables.py')], capture_output=True)
